@@ -12,6 +12,16 @@ CHECK = dict(
          "accepted key spelling, auth/username+password/identitytoken forms, rejected host/repo keys with decoy credentials); 1-9 operations (manifest "
          "get/head/put/delete, blob get/head/put/mount/delete, tag list, referrers, image copy, ping, catalog), chunked uploads, paged lists; log through slog "
          "text/JSON handlers or the logrus bridge at trace level. Oracle = taint scan of every request any model host received + scan of the captured log. "
+         "Audit round (generator-domain): credentials also through a credential helper program (config.Host credHelper, '<token>' identity form, and as "
+         "host default = regctl --default-cred-helper), WithConfigHostDefault (tls / repoAuth for hosts that do not say), docker config found through $DOCKER_CONFIG, "
+         "one login given twice (config.Host + docker file, two key spellings), user-only login, pathPrefix mirrors, duplicated mirror entries, apiOpts disableHead, a "
+         "registry the client only knows by name; registry name forms localhost / IPv4:port / upper-case label / trailing dot; redirect targets inside the registry's "
+         "own site (sub-domain, same name other port) and two-hop redirects; token endpoints that answer with a redirect (301/302/303/307/308) to another host; foreign "
+         "layer URLs on a configured registry and an unavailable URL listed first; the same scheme challenged twice; transient faults (429/408/5xx +- Retry-After, reset, "
+         "truncation) at generated ordinals on any host; further operations (tag delete incl. the dummy-manifest fall-back, BlobCopy, BlobMount across registries, "
+         "ImageConfig, ImageExport, referrers with a source repository on another registry, manifest put with subject, index + platform, copy into an OCI layout, "
+         "fast-check / force-recursive), reference forms tag@digest and default tag, sha512 and unknown-descriptor uploads with sizes around the chunk and monolithic "
+         "limits, reg cache, context cancelled before the call / at the k-th request, operations run in parallel on one client. "
          "Non-trivial = >=2 hosts with configured credentials and >=1 cross-host edge (mirror, copy, redirect, external URL, upload host, Link host, separate token "
          "endpoint) whose target received >=1 request; distinct by (topology, client config, auth spec and challenge ordinals per host, operation multiset).",
     jobs=[REPLAY, rapid("prop", "TestVerifProp", 48000, 2000000, sq=16, st=16)],
